@@ -340,6 +340,34 @@ theorem serve_log (pos : Nat) (b : IBatch) : ∀ e ∈ (serve c p pos b).2, ∃ 
       simp only [List.mem_singleton] at he
       exact ⟨pos, by rw [he, C10_inputs_schema_aux c.env p.decl b b' hb]⟩
 
+/-! network: attempts, retries -/
+
+theorem rep_mem (n : Nat) (l : List SEv) (e : SEv) (h : e ∈ rep n l) : e ∈ l := by
+  unfold rep at h
+  rw [List.mem_flatten] at h
+  obtain ⟨x, hx, he⟩ := h
+  rw [(List.mem_replicate.1 hx).2] at he
+  exact he
+
+theorem rep_one (l : List SEv) : rep 1 l = l := by simp [rep]
+
+/-- a bare `client.post` is one attempt -/
+theorem post_bare (r : Nat) : (post c false r).1 = 1 := by simp [post]
+
+theorem attempts_clean (lost : Nat → Bool) (hl : ∀ r, lost r = false) (n r : Nat) : attempts lost n r = (1, true) := by
+  cases n <;> simp [attempts, hl]
+
+/-- nothing is lost: every request is one POST and is answered -/
+theorem post_clean (hl : ∀ r, c.lost r = false) (retrying : Bool) (r : Nat) : post c retrying r = (1, .ok) := by
+  unfold post
+  split
+  · simp [hl]
+  · simp [attempts_clean c.lost hl]
+
+theorem grow_rep (s s' : St) (n pos : Nat) (b : IBatch) (h : s'.slog = s.slog ++ rep n (serve c p pos b).2) :
+    Grow p s s' :=
+  ⟨_, h, fun e he => serve_log c p pos b e (rep_mem _ _ e he)⟩
+
 /-- `pull` touches only the iterator position, the server log and the request counter -/
 theorem pull_client (fuel : Nat) (s : St) (items : List Item) :
     (pull c p fuel s items).1.finished = s.finished ∧ (pull c p fuel s items).1.tok = s.tok ∧
@@ -351,7 +379,8 @@ theorem pull_client (fuel : Nat) (s : St) (items : List Item) :
   | case4 => simp
   | case5 => simp
   | case6 => simp
-  | case7 f s pos tail hchk ih => exact ih
+  | case7 f s pos tail hchk hok ih => exact ih
+  | case8 => simp
 
 theorem pull_grow (fuel : Nat) (s : St) (items : List Item) : Grow p s (pull c p fuel s items).1 := by
   fun_induction pull c p fuel s items with
@@ -361,8 +390,8 @@ theorem pull_grow (fuel : Nat) (s : St) (items : List Item) : Grow p s (pull c p
   | case4 => exact grow_refl p _ _ rfl
   | case5 => exact grow_refl p _ _ rfl
   | case6 => exact grow_refl p _ _ rfl
-  | case7 f s pos tail hchk ih =>
-    exact grow_trans p s _ _ ⟨(serve c p pos tickBatch).2, rfl, serve_log c p pos tickBatch⟩ ih
+  | case7 f s pos tail hchk hok ih => exact grow_trans p s _ _ (grow_rep c p s _ _ pos tickBatch rfl) ih
+  | case8 f s pos tail hchk hno => exact grow_rep c p s _ _ pos tickBatch rfl
 
 /-- a finished session: `pull` never contacts the server (needs the `_finished` check in the token branch) -/
 theorem pull_sealed (hchk : c.chk = true) (fuel : Nat) (s : St) (items : List Item) (hf : s.finished = true) :
@@ -374,13 +403,17 @@ theorem pull_sealed (hchk : c.chk = true) (fuel : Nat) (s : St) (items : List It
   | case4 => simp
   | case5 => simp
   | case6 => simp
-  | case7 f s pos tail hno ih => simp [hchk, hf] at hno
+  | case7 f s pos tail hno hok ih => simp [hchk, hf] at hno
+  | case8 f s pos tail hno _ => simp [hchk, hf] at hno
 
 /-- the session holds no usable token: `cancel()` ran, or the whole stream arrived with the init response -/
 def Sealed (s : St) : Prop := s.finished = true ∧ s.tok = none
 
+/-- one op: the log grows by conforming `process` calls, or (cancel of an unsealed session) by one `on_cancel` per POST
+attempt of the cancel request, and the session is sealed -/
 def HStep (s s' : St) : Prop :=
-  Grow p s s' ∨ (∃ pos, ¬ Sealed s ∧ Sealed s' ∧ s'.slog = s.slog ++ [.onCancel pos])
+  Grow p s s' ∨
+  (∃ pos, ¬ Sealed s ∧ Sealed s' ∧ s'.slog = s.slog ++ rep (post c c.retryCancel s.reqs).1 [.onCancel pos])
 
 theorem afterPendingEnd_grow (s : St) : Grow p s (afterPendingEnd c p s).1 := by
   unfold afterPendingEnd
@@ -391,7 +424,9 @@ theorem afterPendingEnd_grow (s : St) : Grow p s (afterPendingEnd c p s).1 := by
     · split
       · exact grow_refl p _ _ rfl
       · rename_i pos _
-        exact grow_trans p s _ _ ⟨(serve c p pos tickBatch).2, rfl, serve_log c p pos tickBatch⟩ (pull_grow c p _ _ _)
+        split
+        · exact grow_trans p s _ _ (grow_rep c p s _ _ pos tickBatch rfl) (pull_grow c p _ _ _)
+        · exact grow_rep c p s _ _ pos tickBatch rfl
 
 theorem afterPending_grow (s : St) (j : Nat) : Grow p s (afterPending c p s j).1 := by
   unfold afterPending
@@ -412,12 +447,13 @@ theorem send_grow (s : St) (b : IBatch) : Grow p s (send c p s b).1 := by
   split
   · exact grow_refl p _ _ rfl
   · rename_i pos _
-    have hl := serve_log c p pos b
     split
-    · exact ⟨(serve c p pos b).2, rfl, hl⟩
-    · exact ⟨(serve c p pos b).2, rfl, hl⟩
+    · split
+      · exact grow_rep c p s _ _ pos b rfl
+      · exact grow_rep c p s _ _ pos b rfl
+    · exact grow_rep c p s _ _ pos b rfl
 
-theorem cancel_hstep (s : St) : HStep p s (cancel s).1 := by
+theorem cancel_hstep (s : St) : HStep c p s (cancel c s).1 := by
   unfold cancel
   split
   · rename_i pos hf ht
@@ -426,12 +462,12 @@ theorem cancel_hstep (s : St) : HStep p s (cancel s).1 := by
     intro hs; rw [hs.2] at ht; cases ht
   · left; exact grow_refl p _ _ rfl
 
-theorem step_hstep (s : St) (op : Op) : HStep p s (step c p s op).1 := by
+theorem step_hstep (s : St) (op : Op) : HStep c p s (step c p s op).1 := by
   cases op with
   | next => left; exact next_grow c p s
   | send b => left; exact send_grow c p s b
   | close => left; exact grow_refl p _ _ rfl
-  | cancel => exact cancel_hstep p s
+  | cancel => exact cancel_hstep c p s
 
 /-! ### HTTP: a sealed session is inert -/
 
@@ -490,18 +526,21 @@ theorem hrun_append (a b : List Op) : ∀ (s : St),
 
 def HInv (s : St) : Prop := onCancels s.slog = 0 ∨ (Sealed s ∧ onCancels s.slog = 1)
 
+theorem allProcess_onCancels (l : List SEv) (a : ∀ e ∈ l, ∃ k, e = SEv.process k p.decl) : onCancels l = 0 := by
+  unfold onCancels
+  rw [List.length_eq_zero_iff, List.filter_eq_nil_iff]
+  intro x hx
+  obtain ⟨k, hk⟩ := a x hx
+  rw [hk]; simp [isOnCancel]
+
 theorem grow_onCancels (s s' : St) (h : Grow p s s') : onCancels s'.slog = onCancels s.slog := by
   obtain ⟨l, e, a⟩ := h
-  rw [e, onCancels_append]
-  have : onCancels l = 0 := by
-    unfold onCancels
-    rw [List.length_eq_zero_iff, List.filter_eq_nil_iff]
-    intro x hx
-    obtain ⟨k, hk⟩ := a x hx
-    rw [hk]; simp [isOnCancel]
+  rw [e, onCancels_append, allProcess_onCancels p l a]
   omega
 
-theorem hinv_step (hchk : c.chk = true) (s : St) (hi : HInv s) (op : Op) : HInv (step c p s op).1 := by
+/-- needs BOTH extracted facts: the `_finished` check in `__iter__`, and the cancel POST not being retried -/
+theorem hinv_step (hchk : c.chk = true) (hrc : c.retryCancel = false) (s : St) (hi : HInv s) (op : Op) :
+    HInv (step c p s op).1 := by
   by_cases hs : Sealed s
   · obtain ⟨h1, h2, _, _⟩ := sealed_step c p hchk s hs op
     unfold HInv at hi ⊢
@@ -515,12 +554,14 @@ theorem hinv_step (hchk : c.chk = true) (s : St) (hi : HInv s) (op : Op) : HInv 
       · exact absurd hi.1 hs
     rcases step_hstep c p s op with h | ⟨pos, _, h2, h⟩
     · left; rw [grow_onCancels p s _ h]; exact h0
-    · right; refine ⟨h2, ?_⟩; rw [h, onCancels_append, h0]; rfl
+    · right; refine ⟨h2, ?_⟩
+      rw [h, hrc, post_bare, rep_one, onCancels_append, h0]; rfl
 
-theorem hinv_run (hchk : c.chk = true) (ops : List Op) : ∀ (s : St), HInv s → HInv (run c p s ops).1 := by
+theorem hinv_run (hchk : c.chk = true) (hrc : c.retryCancel = false) (ops : List Op) :
+    ∀ (s : St), HInv s → HInv (run c p s ops).1 := by
   induction ops with
   | nil => intro s h; exact h
-  | cons op r ih => intro s h; simp only [run]; exact ih _ (hinv_step c p hchk s h op)
+  | cons op r ih => intro s h; simp only [run]; exact ih _ (hinv_step c p hchk hrc s h op)
 
 theorem hconform_step (s : St) (hi : InputsConform p.decl s.slog) (op : Op) :
     InputsConform p.decl (step c p s op).1.slog := by
@@ -533,10 +574,10 @@ theorem hconform_step (s : St) (hi : InputsConform p.decl s.slog) (op : Op) :
       cases hk; rfl
   · rw [h]
     intro k sch hm
-    simp only [List.mem_append, List.mem_singleton] at hm
-    rcases hm with hm | hm
+    rcases List.mem_append.1 hm with hm | hm
     · exact hi k sch hm
-    · cases hm
+    · have := rep_mem _ _ _ hm
+      simp at this
 
 theorem hconform_run (ops : List Op) : ∀ (s : St), InputsConform p.decl s.slog →
     InputsConform p.decl (run c p s ops).1.slog := by
@@ -553,19 +594,41 @@ theorem initBody_log (m : Method) : ∀ e ∈ (initBody c m).2, ∃ k, e = SEv.p
     exact ⟨k, by rw [hk, producer_decl m.prog hp]⟩
   · intro e he; cases he
 
+/-- the ways `openS` ends, once the `/init` request was answered and the method body did not raise -/
+theorem openS_cases (m : Method) (hi : m.init = none) (hok : (post c true 0).2 = .ok) :
+    (∃ e, (Http.parseInit (initBody c m).1).err = some e ∧ (Http.parseInit (initBody c m).1).pending = [] ∧
+        m.header = none ∧ openS c m = ((Http.parseInit (initBody c m).1).evs ++ [e], none)) ∨
+    openS c m = (openEvs m (Http.parseInit (initBody c m).1), some (session c m (Http.parseInit (initBody c m).1))) := by
+  unfold openS
+  rw [hok, hi]
+  simp only
+  split
+  · rename_i e he hpend hh
+    exact Or.inl ⟨e, he, hpend, hh, rfl⟩
+  · exact Or.inr rfl
+
 theorem openS_session (m : Method) (s0 : St) (h : (openS c m).2 = some s0) :
-    s0 = session c m (Http.parseInit (initBody c m).1) ∧ m.init = none := by
-  unfold openS at h
-  split at h
-  · cases h
-  · rename_i hinit
+    s0 = session c m (Http.parseInit (initBody c m).1) ∧ m.init = none ∧ (post c true 0).2 = .ok := by
+  have hok : (post c true 0).2 = .ok := by
+    unfold openS at h
+    split at h
+    · assumption
+    · cases h
+  have hinit : m.init = none := by
+    unfold openS at h
+    rw [hok] at h
+    simp only at h
     split at h
     · cases h
-    · simp only [Option.some.injEq] at h
-      exact ⟨h.symm, hinit⟩
+    · assumption
+  rcases openS_cases c m hinit hok with ⟨e, _, _, _, ho⟩ | ho
+  · rw [ho] at h; cases h
+  · rw [ho] at h
+    simp only [Option.some.injEq] at h
+    exact ⟨h.symm, hinit, hok⟩
 
 theorem openS_slog (m : Method) (s0 : St) (h : (openS c m).2 = some s0) :
-    s0.slog = (initBody c m).2 := by
+    s0.slog = rep (post c true 0).1 (initBody c m).2 := by
   rw [(openS_session c m s0 h).1]; rfl
 
 end Http
@@ -743,6 +806,8 @@ variable (c : Cfg) (p : Prog)
 /-- the buffered error of the init response is an error event -/
 def PerrOk (s : St) : Prop := ∀ e, s.perr = some e → isHeader e = false
 
+theorem failEv_nohdr (o : Sent) : isHeader (failEv o) = false := by cases o <;> rfl
+
 theorem readX_nohdr : ∀ xs : List Item, NoHdr (readX xs).1 := by
   intro xs
   induction xs with
@@ -766,7 +831,8 @@ theorem pull_nohdr (fuel : Nat) (s : St) (items : List Item) : NoHdr (pull c p f
   | case4 => exact nohdr_single _ rfl
   | case5 => exact nohdr_nil
   | case6 => exact nohdr_single _ rfl
-  | case7 f s pos tail hchk ih => exact ih
+  | case7 f s pos tail hchk hok ih => exact ih
+  | case8 f s pos tail hchk hno => exact nohdr_single _ (failEv_nohdr _)
 
 theorem afterPending_nohdr (s : St) (j : Nat) (hp : PerrOk s) : NoHdr (afterPending c p s j).2.1 := by
   unfold afterPending
@@ -779,7 +845,9 @@ theorem afterPending_nohdr (s : St) (j : Nat) (hp : PerrOk s) : NoHdr (afterPend
       · exact nohdr_single _ rfl
       · split
         · exact nohdr_single _ rfl
-        · exact pull_nohdr c p _ _ _
+        · split
+          · exact pull_nohdr c p _ _ _
+          · exact nohdr_single _ (failEv_nohdr _)
 
 theorem afterPending_perr (s : St) (j : Nat) (hp : PerrOk s) : PerrOk (afterPending c p s j).1 := by
   unfold afterPending
@@ -792,9 +860,11 @@ theorem afterPending_perr (s : St) (j : Nat) (hp : PerrOk s) : PerrOk (afterPend
       · exact hp
       · split
         · exact hp
-        · intro e he
-          rw [(pull_client c p _ _ _).2.2.1] at he
-          exact hp e he
+        · split
+          · intro e he
+            rw [(pull_client c p _ _ _).2.2.1] at he
+            exact hp e he
+          · exact hp
 
 theorem step_nohdr_http (s : St) (op : Op) (hp : PerrOk s) :
     NoHdr (step c p s op).2 ∧ PerrOk (step c p s op).1 := by
@@ -817,12 +887,14 @@ theorem step_nohdr_http (s : St) (op : Op) (hp : PerrOk s) :
     · exact ⟨nohdr_single _ rfl, hp⟩
     · rename_i pos _
       have h := readX_nohdr (serve c p pos b).1
-      split <;> rename_i heq <;> rw [heq] at h
-      · exact ⟨h, hp⟩
-      · refine ⟨?_, hp⟩
-        split
-        · exact h
-        · exact nohdr_append _ _ h (nohdr_single _ rfl)
+      split
+      · split <;> rename_i heq <;> rw [heq] at h
+        · exact ⟨h, hp⟩
+        · refine ⟨?_, hp⟩
+          split
+          · exact h
+          · exact nohdr_append _ _ h (nohdr_single _ rfl)
+      · exact ⟨nohdr_single _ (failEv_nohdr _), hp⟩
   | close => exact ⟨nohdr_nil, hp⟩
   | cancel =>
     simp only [step]
@@ -1163,7 +1235,7 @@ theorem pull_fin (f : Nat) (s : St) (items : List Item) : (pull c p f s items).1
   (pull_client c p f s items).1
 
 /-- reading a producer turn (after any unread logs) and carrying on with `next` delivers the rest of the script -/
-theorem pullThen_turn (hp : p.isProducer = true) : ∀ (rest : List Step) (pos : Nat) (cl : List Log) (f n : Nat) (s : St),
+theorem pullThen_turn (hp : p.isProducer = true) (hl : ∀ r, c.lost r = false) : ∀ (rest : List Step) (pos : Nat) (cl : List Log) (f n : Nat) (s : St),
     p.steps.drop pos = rest → rest.length ≤ n → s.finished = false →
     pullThen c p f n s (logItems cl ++ Http.turn c.brk pos rest) = Sem.lg cl ++ Sem.producer false rest := by
   intro rest
@@ -1196,6 +1268,7 @@ theorem pullThen_turn (hp : p.isProducer = true) : ∀ (rest : List Step) (pos :
           rw [hfuel]
           unfold pullThen
           rw [pull.eq_6, if_neg (by simp [hf])]
+          simp only [post_clean c hl, rep_one]
           have := ih (pos + 1) [] (fuel p - 1) n'
             { s with gen := .reader (logItems st.post ++ [Item.token (pos + 1)]),
                      slog := s.slog ++ (serve c p (pos + 1) tickBatch).2, reqs := s.reqs + 1 } hr (by omega) hf
@@ -1239,7 +1312,7 @@ def endEvs (s : St) : List Ev :=
       | none => [.fin]
       | some pos => Sem.producer false (p.steps.drop pos)
 
-theorem afterPendingEnd_then (hp : p.isProducer = true) (n : Nat) (s : St) (hn : p.steps.length ≤ n) :
+theorem afterPendingEnd_then (hp : p.isProducer = true) (hl : ∀ r, c.lost r = false) (n : Nat) (s : St) (hn : p.steps.length ≤ n) :
     (match afterPendingEnd c p s with
      | (s', evs, true) => evs ++ (nextN c p n s').2
      | (_, evs, false) => evs) = endEvs p s := by
@@ -1254,7 +1327,8 @@ theorem afterPendingEnd_then (hp : p.isProducer = true) (n : Nat) (s : St) (hn :
       | none => simp
       | some pos =>
         simp only [Bool.false_eq_true, if_false]
-        have := pullThen_turn c p hp (p.steps.drop pos) pos [] (fuel p) n
+        simp only [post_clean c hl, rep_one]
+        have := pullThen_turn c p hp hl (p.steps.drop pos) pos [] (fuel p) n
           { s with pend := [], slog := s.slog ++ (serve c p pos tickBatch).2, reqs := s.reqs + 1 } rfl
           (by simp; omega) hf
         simp only [logItems, List.map_nil, List.nil_append, Sem.lg, pullThen, hperr, hf, ht] at this
@@ -1263,7 +1337,7 @@ theorem afterPendingEnd_then (hp : p.isProducer = true) (n : Nat) (s : St) (hn :
 
 theorem endEvs_gen (s : St) (g : Gen) : endEvs p { s with gen := g } = endEvs p s := rfl
 
-theorem nextN_pending (hp : p.isProducer = true) : ∀ (d j n : Nat) (s : St), s.pend.length = j + d →
+theorem nextN_pending (hp : p.isProducer = true) (hl : ∀ r, c.lost r = false) : ∀ (d j n : Nat) (s : St), s.pend.length = j + d →
     (s.gen = .pending j ∨ (j = 0 ∧ s.gen = .fresh)) → d + p.steps.length + 1 ≤ n →
     (nextN c p n s).2 = (s.pend.drop j).map Ev.data ++ endEvs p s := by
   intro d
@@ -1277,7 +1351,7 @@ theorem nextN_pending (hp : p.isProducer = true) : ∀ (d j n : Nat) (s : St), s
       · simp [next, hg, afterPending, hnone]
       · subst hj; simp [next, hg, afterPending, hnone]
     have hdrop : s.pend.drop j = [] := by rw [List.drop_eq_nil_iff]; omega
-    have := afterPendingEnd_then c p hp n' s (by omega)
+    have := afterPendingEnd_then c p hp hl n' s (by omega)
     simp only [nextN, hnext, hdrop, List.map_nil, List.nil_append]
     rw [← this]
     split <;> simp_all
@@ -1334,30 +1408,18 @@ theorem tail_aux (perr : Option Ev) (cur : Option Nat) :
         | some pos => Sem.producer false (p.steps.drop pos)) := by
   cases perr <;> cases cur <;> rfl
 
-theorem openS_cases (m : Method) (hi : m.init = none) :
-    (∃ e, (Http.parseInit (initBody c m).1).err = some e ∧ (Http.parseInit (initBody c m).1).pending = [] ∧
-        m.header = none ∧ openS c m = ((Http.parseInit (initBody c m).1).evs ++ [e], none)) ∨
-    openS c m = (openEvs m (Http.parseInit (initBody c m).1), some (session c m (Http.parseInit (initBody c m).1))) := by
-  unfold openS
-  rw [hi]
-  simp only
-  split
-  · rename_i e he hpend hh
-    exact Or.inl ⟨e, he, hpend, hh, rfl⟩
-  · exact Or.inr rfl
-
-theorem openIterate_eq (m : Method) (hp : m.prog.isProducer = true) (hi : m.init = none) :
+theorem openIterate_eq (m : Method) (hp : m.prog.isProducer = true) (hi : m.init = none) (hl : ∀ r, c.lost r = false) :
     openIterate c m =
       openEvs m (Http.parseInit (initBody c m).1) ++ (Http.parseInit (initBody c m).1).pending.map Ev.data ++
         tailEvs m.prog (Http.parseInit (initBody c m).1) := by
-  rcases openS_cases c m hi with ⟨e, he, hpend, hh, hopen⟩ | hopen
+  rcases openS_cases c m hi (by rw [post_clean c hl]) with ⟨e, he, hpend, hh, hopen⟩ | hopen
   · unfold openIterate
     rw [hopen]
     simp [openEvs, hh, tailEvs, he, hpend]
   · unfold openIterate
     rw [hopen]
     simp only
-    rw [nextN_pending c m.prog hp (session c m (Http.parseInit (initBody c m).1)).pend.length 0 _ _ (by simp)
+    rw [nextN_pending c m.prog hp hl (session c m (Http.parseInit (initBody c m).1)).pend.length 0 _ _ (by simp)
       (Or.inr ⟨rfl, rfl⟩) (by omega)]
     simp only [List.drop_zero, List.append_assoc]
     congr 2
@@ -1520,7 +1582,7 @@ theorem readX_emit (a post : List Log) (d : Batch) :
   rw [List.append_assoc, readX_logs]
   simp only [List.singleton_append, readX, trailing_logs, lg_noerr, Bool.false_eq_true, if_false]
 
-theorem send_emit (s : St) (pos : Nat) (b b' : IBatch) (ht : s.tok = some pos)
+theorem send_emit (hl : ∀ r, c.lost r = false) (s : St) (pos : Nat) (b b' : IBatch) (ht : s.tok = some pos)
     (hb : coerceInput c.env p.decl b = .ok b') (hx : p.isProducer = false) (d : Batch)
     (hact : (p.stepAt pos).act = .emit d) :
     send c p s b =
@@ -1529,18 +1591,18 @@ theorem send_emit (s : St) (pos : Nat) (b b' : IBatch) (ht : s.tok = some pos)
   have hsv : serve c p pos b =
       (logItems (p.stepAt pos).logs ++ [Item.data d] ++ logItems (p.stepAt pos).post, [.process pos b'.schema]) := by
     simp [serve, hx, hb, runStep, processExchangeStep, processStep, hact]
-  simp only [send, ht, hsv, readX_emit, hx]
+  simp only [send, ht, hsv, readX_emit, hx, post_clean c hl, rep_one]
   simp
 
-theorem send_fail (s : St) (pos : Nat) (a : List Log) (b b' : IBatch) (ht : s.tok = some pos)
+theorem send_fail (hl : ∀ r, c.lost r = false) (s : St) (pos : Nat) (a : List Log) (b b' : IBatch) (ht : s.tok = some pos)
     (hb : coerceInput c.env p.decl b = .ok b') (hx : p.isProducer = false) (e : Exn)
     (hrs : runStep p pos = .fail (logItems a ++ [.err e])) :
     (send c p s b).2 = Sem.lg a ++ [errEv e] := by
   have hsv : (serve c p pos b).1 = logItems a ++ [.err e] := by simp [serve, hx, hb, hrs]
-  simp only [send, ht, hsv, readX_logs, readX]
+  simp only [send, ht, hsv, readX_logs, readX, post_clean c hl]
   simp [errEv]
 
-theorem hrun_exchange (hx : p.isProducer = false) : ∀ (inputs : List IBatch) (s : St) (pos : Nat),
+theorem hrun_exchange (hx : p.isProducer = false) (hl : ∀ r, c.lost r = false) : ∀ (inputs : List IBatch) (s : St) (pos : Nat),
     s.tok = some pos → (∀ b ∈ inputs, ∃ b', coerceInput c.env p.decl b = .ok b') →
     AllEmit (playedFrom p pos inputs.length).dropLast →
     (run c p s (inputs.map Op.send)).2.flatten = Http.exchangeAll (playedFrom p pos inputs.length) := by
@@ -1554,7 +1616,7 @@ theorem hrun_exchange (hx : p.isProducer = false) : ∀ (inputs : List IBatch) (
     simp only [List.map_cons, run, step, List.flatten_cons]
     by_cases hem : ∃ d, (p.stepAt pos).act = .emit d
     · obtain ⟨d, hact⟩ := hem
-      rw [send_emit c p s pos b b' ht hb hx d hact]
+      rw [send_emit c p hl s pos b b' ht hb hx d hact]
       simp only
       have hall' : AllEmit (playedFrom p (pos + 1) rest.length).dropLast := by
         intro x hxm
@@ -1579,7 +1641,7 @@ theorem hrun_exchange (hx : p.isProducer = false) : ∀ (inputs : List IBatch) (
           exact hne d hd
       subst hrest
       simp only [List.map_nil, run, List.flatten_nil, List.append_nil, Http.exchangeAll, Http.exchangeOne, hpx]
-      rw [send_fail c p s pos a b b' ht hb hx e hrs, readExchange_logs]
+      rw [send_fail c p hl s pos a b b' ht hb hx e hrs, readExchange_logs]
       simp [Http.readExchange]
 
 
@@ -1618,6 +1680,13 @@ theorem C10_shapes :
     Gen.C10.iterChecksFinishedAtToken = true ∧ Gen.C10.httpServerCancelBranch = true ∧
     Gen.C10.cancelKey = "vgi_rpc.cancel" := by
   refine ⟨?_, ?_, ?_, ?_, ?_, ?_, ?_, ?_, ?_, ?_, ?_, ?_, ?_, ?_, ?_, ?_, ?_, ?_, ?_, ?_, ?_, ?_, ?_, ?_⟩ <;> decide
+
+/-- which client requests are retried: init and continuations go through `_post_with_retry`; `exchange()` and
+`cancel()` are a bare POST — the server is stateless, so each cancel request that reaches it runs `on_cancel` -/
+theorem C10_retry_shapes :
+    Gen.C10.postInit = "retry" ∧ Gen.C10.postContinuation = "retry" ∧ Gen.C10.postExchange = "bare" ∧
+    Gen.C10.postCancel = "bare" ∧ Gen.C10.cancelRetried = false := by
+  refine ⟨?_, ?_, ?_, ?_, ?_⟩ <;> decide
 
 /-! ## Inputs -/
 
@@ -1661,7 +1730,7 @@ theorem C10_inputs_reach_state_http (c : HttpM.Cfg) (m : Method) (s0 : HttpM.St)
   apply hconform_run
   rw [openS_slog c m s0 h]
   intro k sch hm
-  obtain ⟨k', hk⟩ := initBody_log c m _ hm
+  obtain ⟨k', hk⟩ := initBody_log c m _ (rep_mem _ _ _ hm)
   cases hk; rfl
 
 /-! ## Producer and exchange streams consumed to the end (corollaries of the Engine refinement theorems) -/
@@ -1748,7 +1817,8 @@ the `_finished` check: opening a producer and iterating it to the end.  Without 
 `Engine.Http.iterate`; with a header it is the same sequence with the header-stream logs in front and the header event
 after the logs delivered at the open.  Either way the data delivered = the emitted batches up to the finish, and the
 stream ends exactly there. -/
-theorem C10_producer_http_session (c : HttpM.Cfg) (m : Method) (hd : m.prog.decl = []) (hi : m.init = none) :
+theorem C10_producer_http_session (c : HttpM.Cfg) (m : Method) (hd : m.prog.decl = []) (hi : m.init = none)
+    (hl : ∀ r, c.lost r = false) :
     (m.header = none → HttpM.openIterate c m = Http.iterate c.brk m.initLogs m.prog.steps) ∧
     (∀ h, m.header = some h → ∃ evs tail, Http.iterate c.brk [] m.prog.steps = evs ++ tail ∧
         (∀ e ∈ evs, ∃ l, e = Ev.log l) ∧
@@ -1757,7 +1827,7 @@ theorem C10_producer_http_session (c : HttpM.Cfg) (m : Method) (hd : m.prog.decl
     restOf (HttpM.openIterate c m) =
       (match m.header with | some h => [Ev.header h] | none => []) ++ terminal m.prog.steps := by
   have hp : m.prog.isProducer = true := by simp [Prog.isProducer, hd]
-  have key := openIterate_eq c m hp hi
+  have key := openIterate_eq c m hp hi hl
   have hnone : m.header = none → HttpM.openIterate c m = Http.iterate c.brk m.initLogs m.prog.steps := by
     intro hh
     rw [key, iterate_assemble, assemble_tail]
@@ -1865,7 +1935,7 @@ theorem C10_exchange_pipe_session (env : Env) (m : Method) (inputs : List IBatch
 theorem C10_exchange_http_session (c : HttpM.Cfg) (m : Method) (inputs : List IBatch)
     (hx : m.prog.decl ≠ []) (hi : m.init = none)
     (hin : ∀ b ∈ inputs, ∃ b', coerceInput c.env m.prog.decl b = .ok b')
-    (hall : AllEmit (playedFrom m.prog 0 inputs.length).dropLast) :
+    (hall : AllEmit (playedFrom m.prog 0 inputs.length).dropLast) (hl : ∀ r, c.lost r = false) :
     ∃ s0, (HttpM.openS c m).2 = some s0 ∧
       (HttpM.run c m.prog s0 (inputs.map HttpM.Op.send)).2.flatten =
         Http.exchangeAll (playedFrom m.prog 0 inputs.length) ∧
@@ -1881,12 +1951,12 @@ theorem C10_exchange_http_session (c : HttpM.Cfg) (m : Method) (inputs : List IB
   have hpr := parseInit_token (HttpM.sinkLogs m) 0
   rw [← hbody] at hpr
   have hopen : (HttpM.openS c m).2 = some (HttpM.session c m (Http.parseInit (HttpM.initBody c m).1)) := by
-    rcases openS_cases c m hi with ⟨e, he, _⟩ | h
+    rcases openS_cases c m hi (by rw [post_clean c hl]) with ⟨e, he, _⟩ | h
     · rw [hpr] at he; cases he
     · rw [h]
   have htok : (HttpM.session c m (Http.parseInit (HttpM.initBody c m).1)).tok = some 0 := by
     simp [HttpM.session, hpr]
-  have key := hrun_exchange c m.prog hnp inputs _ 0 htok hin hall
+  have key := hrun_exchange c m.prog hnp hl inputs _ 0 htok hin hall
   have c10 := C10_exchange [] (playedFrom m.prog 0 inputs.length)
   refine ⟨_, hopen, key, ?_, ?_, ?_⟩
   · rw [key]; exact c10.2.2.1
@@ -1912,17 +1982,14 @@ theorem C10_header_pipe (env : Env) (m : Method) (h : Nat) (ops : List PipeM.Op)
 /-- HTTP: the same — including the stream whose first producer step fails inside the `/init` turn (the session is kept
 and carries the header; the error follows on iteration) -/
 theorem C10_header_http (c : HttpM.Cfg) (m : Method) (h : Nat) (ops : List HttpM.Op)
-    (hh : m.header = some h) (hi : m.init = none) :
+    (hh : m.header = some h) (hi : m.init = none) (hok : (HttpM.post c true 0).2 = .ok) :
     ∃ s0, (HttpM.openS c m).2 = some s0 ∧
       HeaderOnceFirst h ((HttpM.openS c m).1 ++ (HttpM.run c m.prog s0 ops).2.flatten) := by
   have hopen : HttpM.openS c m = (HttpM.openEvs m (Http.parseInit (HttpM.initBody c m).1),
       some (HttpM.session c m (Http.parseInit (HttpM.initBody c m).1))) := by
-    unfold HttpM.openS
-    rw [hi]
-    simp only
-    split
-    · rename_i hx; rw [hh] at hx; cases hx
-    · rfl
+    rcases openS_cases c m hi hok with ⟨e, _, _, hx, _⟩ | ho
+    · rw [hh] at hx; cases hx
+    · exact ho
   refine ⟨_, by rw [hopen], ?_⟩
   rw [hopen]
   refine ⟨lgEv m.initLogs ++ (Http.parseInit (HttpM.initBody c m).1).evs,
@@ -1972,14 +2039,24 @@ theorem C10_cancel_pipe (env : Env) (m : Method) (s0 : PipeM.St) (pre post : Lis
     · simp at he
     · exact drainAll_logs _ e he
 
-/-- HTTP, ALL step scripts, break decisions, op sequences before and after the cancel.  The producer runs ahead of the
-client (a turn may have executed more steps than the client consumed), so the statement is about what happens AFTER the
+/-- the client as extracted from the source: whether `__iter__` re-checks `_finished` at a token, and whether `cancel()`
+retries its POST; over an arbitrary network (`lost`) and retry budget -/
+def HttpM.asBuilt (env : Env) (brk : Nat → Bool) (lost : Nat → Bool) (retries : Option Nat) : HttpM.Cfg :=
+  { env := env, brk := brk, chk := Gen.C10.iterChecksFinishedAtToken, lost := lost, retries := retries,
+    retryCancel := Gen.C10.cancelRetried }
+
+/-- HTTP, ALL step scripts, break decisions, op sequences before and after the cancel — and ALL networks: any set of
+requests (init, continuation, exchange, cancel attempts) may have its response lost after the server handled it, under
+any retry budget of the client.  The producer runs ahead of the client (a turn may have executed more steps than the
+client consumed) and lost responses make the server run turns again, so the statement is about what happens AFTER the
 cancel request is served: the server log does not grow, no further request is sent, `on_cancel` ran at most once in the
 whole session, the cancel reports nothing, `exchange()` is refused, iteration only hands out what was buffered.
-`chk` is the extracted fact that `__iter__` re-checks `_finished` before following a continuation token. -/
-theorem C10_cancel_http (env : Env) (brk : Nat → Bool) (m : Method) (s0 : HttpM.St) (pre post : List HttpM.Op)
-    (h : (HttpM.openS ⟨env, brk, Gen.C10.iterChecksFinishedAtToken⟩ m).2 = some s0) :
-    let c : HttpM.Cfg := ⟨env, brk, Gen.C10.iterChecksFinishedAtToken⟩
+Rests on two extracted facts: `__iter__` re-checks `_finished` before following a continuation token, and `cancel()`
+sends a bare POST (the stateless server runs `on_cancel` for every cancel request that reaches it). -/
+theorem C10_cancel_http (env : Env) (brk : Nat → Bool) (lost : Nat → Bool) (retries : Option Nat) (m : Method)
+    (s0 : HttpM.St) (pre post : List HttpM.Op)
+    (h : (HttpM.openS (HttpM.asBuilt env brk lost retries) m).2 = some s0) :
+    let c : HttpM.Cfg := HttpM.asBuilt env brk lost retries
     let s1 := (HttpM.run c m.prog s0 pre).1
     let k := HttpM.step c m.prog s1 .cancel
     let r := HttpM.run c m.prog k.1 post
@@ -1987,19 +2064,16 @@ theorem C10_cancel_http (env : Env) (brk : Nat → Bool) (m : Method) (s0 : Http
     r.1.slog = k.1.slog ∧ r.1.reqs = k.1.reqs ∧ onCancels r.1.slog ≤ 1 ∧ k.2 = [] ∧ AllOps HttpRefused post r.2 := by
   intro c s1 k r
   have hchk : c.chk = true := C10_shapes.2.2.2.2.2.2.2.2.2.2.2.2.2.2.2.2.2.2.2.2.2.1
+  have hrc : c.retryCancel = false := C10_retry_shapes.2.2.2.2
   have hsealed : Sealed k.1 := by
-    show Sealed (HttpM.cancel s1).1
+    show Sealed (HttpM.cancel c s1).1
     unfold HttpM.cancel; split <;> exact ⟨rfl, rfl⟩
   obtain ⟨_, h2, h3, h4⟩ := sealed_run c m.prog hchk post k.1 hsealed
   have hinv0 : HInv s0 := by
     left
     rw [openS_slog c m s0 h]
-    unfold onCancels
-    rw [List.length_eq_zero_iff, List.filter_eq_nil_iff]
-    intro x hx
-    obtain ⟨k', hk⟩ := initBody_log c m x hx
-    rw [hk]; simp [isOnCancel]
-  have hinv : HInv k.1 := hinv_step c m.prog hchk s1 (hinv_run c m.prog hchk pre s0 hinv0) .cancel
+    exact allProcess_onCancels m.prog _ (fun x hx => initBody_log c m x (rep_mem _ _ _ hx))
+  have hinv : HInv k.1 := hinv_step c m.prog hchk hrc s1 (hinv_run c m.prog hchk hrc pre s0 hinv0) .cancel
   refine ⟨?_, h2, h3, ?_, ?_, h4⟩
   · rw [hrun_append]; simp only [HttpM.run]; rfl
   · show onCancels r.1.slog ≤ 1
@@ -2007,7 +2081,7 @@ theorem C10_cancel_http (env : Env) (brk : Nat → Bool) (m : Method) (s0 : Http
     rcases hinv with hi | hi
     · omega
     · omega
-  · show (HttpM.cancel s1).2 = []
+  · show (HttpM.cancel c s1).2 = []
     unfold HttpM.cancel; split <;> rfl
 
 namespace Examples
@@ -2020,7 +2094,10 @@ def exInput : IBatch := ⟨[⟨['v'], ['i'], 0⟩]⟩
 def exEnv : Env := ⟨fun _ _ _ => none⟩
 
 example : ∃ s0, (PipeM.openS exMethod).2 = some s0 := ⟨_, rfl⟩
-example : ∃ s0, (HttpM.openS ⟨exEnv, fun _ => true, true⟩ exMethod).2 = some s0 := ⟨_, rfl⟩
+example : ∃ s0, (HttpM.openS { env := exEnv, brk := fun _ => true, chk := true } exMethod).2 = some s0 := ⟨_, rfl⟩
+/-- a network that loses the first answer of `/init`, a client with one retry: the stream still opens -/
+example : ∃ s0, (HttpM.openS { env := exEnv, brk := fun _ => true, chk := true, lost := fun r => r == 0, retries := some 1 }
+    exMethod).2 = some s0 := ⟨_, rfl⟩
 example : exMethod.prog.decl ≠ [] ∧ exMethod.init = none ∧ exMethod.header = some 7 := by decide
 example : ∀ b ∈ [exInput, exInput], b.schema = exDecl ∧ ∃ b', coerceInput exEnv exMethod.prog.decl b = .ok b' := by
   intro b hb
